@@ -173,7 +173,9 @@ def _render_simple(p, r, variant):
 
 
 INVALID = ["a >", "1a", "a[", ":not(", "a..b", "", " ", "a::", "#", ".", "a b >", "[=v]", "a:not()", ">", "a,, b",
-           ":not(a b)", "[[a]#d=b]", "[a>x#i[b]=c]", ":not(.a)b", "div:nth-child(2n)span", ":lang(fr)*", ":not(foo(a)", "x:nth-child(foo(2n+1)", "a:not(.b)|c"]
+           ":not(a b)", "[[a]#d=b]", "[a>x#i[b]=c]", ":not(.a)b", "div:nth-child(2n)span", ":lang(fr)*", ":not(foo(a)", "x:nth-child(foo(2n+1)", "a:not(.b)|c",
+           # after a (functional) pseudo-element only a combinator may follow
+           "a::part(x).b", "a::slotted(y)::after", ":not(b)::part(x):hover", "a::before.b", "a::after#i", "a::part(x)[t]"]
 
 
 def config(rs, run, tier):
